@@ -355,7 +355,7 @@ def rule_D(run, prog, routines):
                 unit.append(nm)
     facts = Facts(real=["w", "t", "sgn"], unit_modulus=unit)
     got = new.at("i", "a", "b")
-    tr = normal(new.at("i", "x", "x").sum_over("x") - data.at("i", "x", "x").sum_over("x"), facts)
+    tr = normal(new.at("i", "x", "x").sum_over("x") - Expr.factor("D", ("i", "x", "x")).sum_over("x"), facts)
     run.obligation(rid, "DensityMatrixEvolution.convert_from_RWA", not tr, key="trace",
                    message="RWA conversion changes the trace; residue %s" % show_normal(tr, 3),
                    loc=cf.loc(), sample={"identity": "tr(U rho U^+) = tr rho", "unit_modulus": unit,
